@@ -81,7 +81,9 @@ pub fn ref_sqrti(x: u64) -> u64 {
 }
 
 fn check_sqrti(s: &mut Sink, x: u64) {
-    let got = catch(|| helpers::sqrti(x, 0, 0, 0, 0));
+    // the four unused arguments vary with the argument (zero for even x)
+    let u = if x % 2 == 0 { 0 } else { x.rotate_left(7) | 1 };
+    let got = catch(|| helpers::sqrti(x, u, u ^ 5, !u, u.wrapping_mul(3)));
     let rp = json!({"kind":"helper","name":"sqrti","args":[format!("{x:#x}")]});
     let want = if x < (1u64 << 52) { isqrt128(x as u128) as u64 } else { ref_sqrti(x) };
     match got {
@@ -163,12 +165,21 @@ fn check_strcmp(s: &mut Sink, a: &[u8], b: &[u8]) {
     // Buf leaves 64 canary bytes after the buffer; they are non-zero (0xC5), so an over-read is
     // visible as a wrong result rather than a fault
     let rp = json!({"kind":"helper","name":"strcmp","args":[hex(a), hex(b)]});
-    let got = catch(|| helpers::strcmp(ba.addr(), bb.addr(), 0, 0, 0));
     let want = ref_strcmp(&az, &bz);
-    match got {
-        Ok(v) if v == want => {}
-        Ok(v) => viol(s, "helpers/strcmp/value-mismatch", format!("strcmp({:02x?}, {:02x?}) = {v}, expected {want}", a, b), rp),
-        Err(m) => viol(s, &format!("helpers/strcmp/{}", panic_class(&m)), m, rp),
+    // the three arguments the function does not use: zero and a few non-zero triples
+    for (x, y, z) in [(0u64, 0u64, 0u64), (1, 2, 3), (6, 0, 0), (u64::MAX, u64::MAX, u64::MAX)] {
+        let got = catch(|| helpers::strcmp(ba.addr(), bb.addr(), x, y, z));
+        match got {
+            Ok(v) if v == want => {}
+            Ok(v) => {
+                viol(s, "helpers/strcmp/value-mismatch", format!("strcmp({:02x?}, {:02x?}, {x:#x}, {y:#x}, {z:#x}) = {v}, expected {want}", a, b), rp.clone());
+                break;
+            }
+            Err(m) => {
+                viol(s, &format!("helpers/strcmp/{}", panic_class(&m)), m, rp.clone());
+                break;
+            }
+        }
     }
 }
 
